@@ -32,7 +32,7 @@ def verify_function(key: str, budget_ms: int = 8000) -> dict:
             first[i] = check_obligation(vc, ob, 3000 if ob.kind == "mustfail" else budget_ms, mode="fast" if ob.kind not in ("mustfail", "cover") else "all")
         order = sorted((i for i in first if first[i][0] == "unknown" and obs[i].kind not in ("mustfail", "cover") and not _is_false_goal(obs[i])), key=lambda i: (bool(obs[i].aux), i))
         for i in order:
-            if spent > 150:
+            if spent > 150 * budget_ms / 8000:
                 first[i] = ("unknown", first[i][1], "skipped: per-function solver budget (150 s) exhausted")
                 continue
             st, dt, detail = check_obligation(vc, obs[i], budget_ms, mode="external")
@@ -82,7 +82,7 @@ def _project():
     return _PROJ
 
 
-def verify_many(keys, procs=16, per_function_timeout=240):
+def verify_many(keys, procs=16, per_function_timeout=240, budget_ms=8000):
     """One process per function with a hard kill (z3's soft timeouts are not always honoured)."""
     import multiprocessing as mp
     ctx = mp.get_context("fork")
@@ -93,7 +93,7 @@ def verify_many(keys, procs=16, per_function_timeout=240):
         while pending and len(running) < procs:
             k = pending.pop(0)
             parent, child = ctx.Pipe(duplex=False)
-            p = ctx.Process(target=_worker, args=(k, child))
+            p = ctx.Process(target=_worker, args=(k, child, budget_ms))
             p.start()
             child.close()
             running[k] = (p, parent, time.time())
@@ -116,8 +116,8 @@ def verify_many(keys, procs=16, per_function_timeout=240):
     return [results[k] for k in keys]
 
 
-def _worker(key, conn):
+def _worker(key, conn, budget_ms=8000):
     try:
-        conn.send(verify_function(key))
+        conn.send(verify_function(key, budget_ms))
     finally:
         conn.close()
